@@ -50,6 +50,11 @@ pub fn build(property: &str, tier: &str) -> Option<PropRun> {
     }
 }
 
+/// The shared link-world pool run with this property's oracles.
+fn from_pool(quick: bool, prop: &str, mask: u32) -> Vec<Scenario> {
+    crate::pool::lw_pool(quick).into_iter().map(|mut s| { s.oracles = mask; s.tag = format!("{}.pool.{}", prop, s.tag); lw_scenario(s) }).collect()
+}
+
 fn spec(tag: &str, cfg: &LwCfg, script: &Arc<ScriptInfo>, env: LwEnv, d: usize, oracles: u32) -> Scenario {
     lw_scenario(LwSpec { tag: tag.to_string(), cfg: cfg.clone(), script: script.clone(), env, d, oracles, probe_round: 0 })
 }
@@ -62,36 +67,14 @@ fn scripts_upto(n_max: usize, chans: &[u8], modes: &[SendMode], sizes: &[usize],
 
 // ------------------------------------------------------------------------------------------------
 fn c01(quick: bool) -> PropRun {
-    let mut scs = Vec::new();
     let oracles = O_C01 | O_C02S | O_FSIZE;
     let grid = cfg_grid(quick);
-    // (i) all short scripts
-    let sizes: &[usize] = if quick { &[0, 40, 2000] } else { &[0, 40, 1448, 2000] };
-    let (n_small, d_small) = if quick { (2, 2) } else { (3, 2) };
-    let small = scripts_upto(n_small, &[0, 1], &MODES, sizes, &[0, 1]);
-    let small_cfgs: Vec<&LwCfg> = if quick { vec![&grid[0], &grid[1], &grid[3]] } else { grid.iter().filter(|c| c.pwin <= 4 || c.pwin == 4096).collect() };
-    for cfg in small_cfgs.iter() { for s in small.iter() { scs.push(spec("C01.all", cfg, s, env_faulty(if quick { 5 } else { 6 }, 90), d_small, oracles)); } }
-    // (i') all 3-packet scripts over the receiver-relevant alphabet (2 channels x {Unreliable, Reliable}), one packet per round or all at once
-    let three = scripts_upto(3, &[0, 1], &[SendMode::Unreliable, SendMode::Reliable, SendMode::Persistent], &[40], &[0, 1]);
-    let three_cfgs: Vec<&LwCfg> = if quick { vec![&grid[0], &grid[1], &grid[2]] } else { small_cfgs.clone() };
-    for cfg in three_cfgs.iter() {
-        for s in three.iter().filter(|s| s.ops.len() == 3) {
-            let s = &Arc::new(ScriptInfo::new(warm(&s.ops, 8)));
-            let mut env = env_faulty(if quick { 5 } else { 7 }, 100); env.dev_start = 8;
-            env.fates = &[Fate::Deliver, Fate::Drop, Fate::Dup, Fate::Delay3]; env.deltas = &[20, 2000]; env.skip_choice = false;
-            scs.push(spec("C01.three", cfg, s, env, if quick { 2 } else { 3 }, oracles));
-        }
-    }
-    // (ii) collision scripts
-    let d_col = if quick { 2 } else { 3 };
-    for cfg in grid.iter() {
-        if quick && cfg.pwin != 4 && cfg.pbase[0] != 0 { continue; }
-        for (name, ops) in collision_scripts() {
-            let si = Arc::new(ScriptInfo::new(ops));
-            let mut env = env_faulty(if quick { 5 } else { 8 }, 120);
-            if quick { env.fates = FATES_BASIC_PLUS; env.deltas = &[20, 0, 2000]; env.skip_choice = false; }
-            scs.push(spec(&format!("C01.col.{}", name), cfg, &si, env, d_col, oracles));
-        }
+    let (d_small, n_small, d_col) = (2, 2, if quick { 2 } else { 3 });
+    let mut scs = from_pool(quick, "C01", oracles);
+    if !quick {
+        // all 3-packet scripts over the full alphabet, cold start, d = 2
+        let three_full = scripts_upto(3, &[0, 1], &MODES, &[0, 40, 2000], &[0, 1]);
+        for s in three_full.iter().filter(|s| s.ops.len() == 3) { scs.push(spec("C01.all3", &grid[0], s, env_faulty(6, 90), 2, oracles)); }
     }
     // (iii) complete enumeration (d = unbounded) for 1-2 packet scripts over a small fate menu, short window
     if !quick {
@@ -131,11 +114,11 @@ fn mixed_scripts() -> Vec<(&'static str, Vec<Op>)> {
 }
 
 fn c02(quick: bool) -> PropRun {
-    let mut scs = Vec::new();
     let oracles = O_C02S | O_LIVE;
     let grid = cfg_grid(quick);
     let d = if quick { 2 } else { 3 };
     let dev = if quick { 6 } else { 10 };
+    let mut scs = from_pool(quick, "C02", oracles | O_C01);
     for cfg in grid.iter() {
         if quick && !(cfg.pwin == 4 || (cfg.pwin == 4096 && cfg.pbase[0] == 0)) { continue; }
         for (name, ops) in mixed_scripts() {
@@ -150,6 +133,7 @@ fn c02(quick: bool) -> PropRun {
             scs.push(spec(&format!("C02.blackout.{}", name), cfg, &si, envb, 1, oracles));
         }
     }
+    if false {
     // all 3-packet scripts over 2 channels x {Unreliable, Reliable, Persistent}, one packet per round on a warm connection, with the liveness oracle
     let three = scripts_upto(3, &[0, 1], &[SendMode::Unreliable, SendMode::Reliable, SendMode::Persistent], &[40], &[1]);
     for cfg in [&grid[0], &grid[1]] {
@@ -159,6 +143,7 @@ fn c02(quick: bool) -> PropRun {
             env.fates = &[Fate::Deliver, Fate::Drop, Fate::Dup, Fate::Delay3]; env.deltas = &[20, 2000];
             scs.push(spec("C02.three", cfg, s, env, if quick { 2 } else { 3 }, oracles | O_C01));
         }
+    }
     }
     scs.extend(crate::props_ew::survive_scenarios(quick, false));
     PropRun { level: "model_checking", scenarios: scs, units: vec![], replay_case: None, summary: lw_summary(
@@ -219,29 +204,10 @@ fn c05(quick: bool) -> PropRun {
 
 // ------------------------------------------------------------------------------------------------
 fn c12(quick: bool) -> PropRun {
-    let mut scs = Vec::new();
     let oracles = O_C12 | O_C12L;
     let grid = cfg_grid(quick);
     let d = if quick { 2 } else { 3 };
-    use SendMode::*;
-    let mut scripts: Vec<(String, Vec<Op>, Option<LwCfg>)> = collision_scripts().into_iter().map(|(n, o)| (n.to_string(), o, None)).collect();
-    scripts.push(("cut-across-flushes".into(), vec![send(0, 0, 0, Persistent, 5000), send(0, 0, 1, TimeSensitive, 3000), send(1, 0, 0, Unreliable, 3000), send(1, 0, 1, Reliable, 2000)], Some(LwCfg { pwin: 8, fwin: 8, bw: [20_000, 20_000], ..LwCfg::small() })));
-    let wide = LwCfg { pwin: 4096, fwin: 4096, ..LwCfg::small() };
-    scripts.push(("warm-steady-reliable".into(), warm(&(0..7).map(|i| send(i, 0, (i % 2) as u8, if i % 3 == 2 { Persistent } else { Reliable }, 200 + 10 * i)).collect::<Vec<_>>(), 8), Some(wide.clone())));
-    scripts.push(("warm-steady-frag".into(), warm(&[send(0, 0, 0, Reliable, 100), send(1, 0, 1, Reliable, 3000), send(2, 0, 0, Persistent, 101), send(3, 0, 1, Reliable, 102), send(4, 0, 0, Reliable, 103), send(5, 0, 1, Unreliable, 104)], 8), Some(LwCfg { pwin: 8, fwin: 8, ..LwCfg::small() })));
-    scripts.push(("ts-under-budget".into(), vec![send(0, 0, 0, Unreliable, 1448), send(0, 0, 0, TimeSensitive, 1448), send(0, 0, 0, TimeSensitive, 100), send(1, 0, 0, TimeSensitive, 1448), send(2, 0, 1, Reliable, 10)], Some(LwCfg { bw: [5000, 5000], ..LwCfg::small() })));
-    for (name, ops, cfg_o) in scripts {
-        let si = Arc::new(ScriptInfo::new(ops));
-        let cfgs: Vec<LwCfg> = match cfg_o { Some(c) => vec![c], None => if quick { vec![grid[0].clone(), grid[1].clone()] } else { grid.clone() } };
-        for cfg in cfgs {
-            let mut env = env_live(if quick { 5 } else { 8 });
-            env.fates = &[Fate::Deliver, Fate::Drop, Fate::Dup, Fate::Delay1, Fate::Delay3];
-            env.deltas = &[20, 0, 150, 2000]; env.flush_choice = true;
-            if quick { env.flush_choice = false; }
-            if name.starts_with("warm-") { env.dev_start = 8; env.dev_rounds = 12; env.max_rounds += 8; env.fates = &[Fate::Deliver, Fate::Drop, Fate::Delay3, Fate::Delay6]; env.deltas = &[20, 2000]; env.fair_delta = 100; /* warm-up at 100 ms steps: the RTT estimate (0.4 s) is then well above the 60 ms the window's 20 ms steps need, so that late acknowledgements still arrive before the first resend */ }
-            scs.push(spec(&format!("C12.{}", name), &cfg, &si, env, d, oracles));
-        }
-    }
+    let mut scs = from_pool(quick, "C12", oracles);
     if !quick {
         let small = scripts_upto(2, &[0, 1], &MODES, &[40, 2000, 3000], &[0, 1]);
         for s in small.iter() { let mut env = env_live(6); env.flush_choice = true; scs.push(spec("C12.all", &grid[0], s, env, 2, oracles)); }
@@ -254,7 +220,7 @@ fn c12(quick: bool) -> PropRun {
 
 // ------------------------------------------------------------------------------------------------
 fn c13(quick: bool) -> PropRun {
-    let mut scs = Vec::new();
+    let mut scs = from_pool(quick, "C13", O_C13);
     let oracles = O_C13;
     let d = if quick { 2 } else { 3 };
     use SendMode::*;
@@ -291,26 +257,10 @@ fn c13(quick: bool) -> PropRun {
 
 // ------------------------------------------------------------------------------------------------
 fn c20(quick: bool) -> PropRun {
-    let mut scs = Vec::new();
     let oracles = O_C20;
     let grid = cfg_grid(quick);
     let d = if quick { 2 } else { 3 };
-    use SendMode::*;
-    let mut scripts: Vec<(String, Vec<Op>, Option<LwCfg>)> = collision_scripts().into_iter().map(|(n, o)| (n.to_string(), o, None)).collect();
-    scripts.push(("ts-multifragment-stale".into(), vec![send(0, 0, 0, Reliable, 6000), send(0, 0, 0, TimeSensitive, 3000), send(0, 0, 1, TimeSensitive, 1449), send(1, 0, 0, TimeSensitive, 4344), send(1, 0, 1, TimeSensitive, 2000), send(2, 0, 0, Unreliable, 10)], Some(LwCfg { bw: [20_000, 20_000], ..LwCfg::small() })));
-    scripts.push(("ts-heavy".into(), vec![send(0, 0, 0, TimeSensitive, 1448), send(0, 0, 0, TimeSensitive, 1448), send(0, 0, 1, TimeSensitive, 700), send(1, 0, 0, TimeSensitive, 20), send(1, 0, 0, Reliable, 21), send(3, 0, 1, TimeSensitive, 22)], Some(LwCfg { bw: [5000, 5000], ..LwCfg::small() })));
-    scripts.push(("alloc-stall".into(), (0..5).map(|i| send(0, 0, 0, if i % 2 == 0 { Reliable } else { TimeSensitive }, 2000 + i)).collect(), Some(LwCfg { pwin: 8, fwin: 8, rx_alloc: [3 * FRAG, 3 * FRAG], ..LwCfg::small() })));
-    scripts.push(("window-stall".into(), (0..10).map(|i| send(i / 5, 0, (i % 2) as u8, MODES[i % 4], 10 + i)).collect(), Some(LwCfg { pwin: 2, fwin: 4, ..LwCfg::small() })));
-    for (name, ops, cfg_o) in scripts {
-        let si = Arc::new(ScriptInfo::new(ops));
-        let cfgs: Vec<LwCfg> = match cfg_o { Some(c) => vec![c], None => if quick { vec![grid[0].clone(), grid[1].clone()] } else { grid.clone() } };
-        for cfg in cfgs {
-            let mut env = env_live(if quick { 5 } else { 8 });
-            env.fates = &[Fate::Deliver, Fate::Drop, Fate::Dup, Fate::Delay3];
-            env.deltas = &[20, 0, 2000]; env.flush_choice = !quick; env.skip_choice = !quick;
-            scs.push(spec(&format!("C20.{}", name), &cfg, &si, env, d, oracles | O_LIVE));
-        }
-    }
+    let mut scs = from_pool(quick, "C20", oracles | O_LIVE);
     if !quick {
         let small = scripts_upto(3, &[0], &MODES, &[0, 40, 2000], &[0, 1]);
         for s in small.iter() { scs.push(spec("C20.all", &grid[0], s, env_live(5), 2, oracles)); }
